@@ -55,12 +55,15 @@ class Concatenate(MDOFunction):
                 for output_name in output_names
             ]
 
+        # The output dimension is known only if those of all the functions are known;
+        # otherwise it is deduced from the first evaluation.
+        dims = [func.dim for func in self.__functions]
         super().__init__(
             self._func_to_wrap,
             name,
             f_type,
             self._jac_to_wrap,
-            dim=sum(func.dim for func in self.__functions),
+            dim=sum(dims) if all(dims) else 0,
             output_names=output_names,
         )
 
